@@ -179,6 +179,10 @@ func mergeStubs(a, b map[string]string) map[string]string {
 		out[k] = v
 	}
 	for k, v := range b {
+		if v == "real" { // a harness may run the real function where the property-level default stubs it
+			delete(out, k)
+			continue
+		}
 		out[k] = v
 	}
 	return out
@@ -538,9 +542,14 @@ func conclude(id, tier string, seed int, props *Props, outs []harnessOutcome, sm
 			if ho.Spec.NativeReplay == "" && len(g.Samples) > 0 {
 				ok, out := nativeReplay(props, ho.Spec, tier, g)
 				replayed++
-				if ok {
+				switch {
+				case strings.Contains(out, "no native meaning") || strings.Contains(out, "engine only"):
+					// the harness depends on a solver-only primitive (uninterpreted function, ghost
+					// signature): the vector has no native counterpart
+					status = "not-applicable: harness uses solver-only primitives (uninterpreted functions / ghost values)"
+				case ok:
 					status = "reproduced"
-				} else {
+				default:
 					status = "not-reproduced"
 					art["native_output"] = out
 				}
